@@ -33,6 +33,7 @@ RULE = (
 )
 RULE += (" " + 'Regex field lists include patterns with inline flags and numbered back references.')
 RULE += (" Correlation targets: collections of 1-3 rules with varied log sources and tags plus 1-3 correlation rules (also correlation of correlation, depth <= 3); item with 1-2 rule conditions (logsource, is_sigma_rule, is_sigma_correlation_rule, tag), and/or, negation; expected: a log source condition holds on a correlation rule iff some rule reachable through its references has it; observed on group-by fields.")
+RULE += (" Preceding items may sit inside nested pipelines (a second set_state on the same key inside a nest; all preceding items wrapped in a nest): state, applied ids and field tracking of the nest must be visible to the item under test exactly as if the items were not nested.")
 ASSUMPTIONS = [
     "an empty condition group holds whatever its linking / negation flag (an item without conditions always applies)",
     "detection items are generated without value modifiers other than fieldref, so value conditions see the source values",
@@ -193,40 +194,48 @@ def build_model(doc: dict, pre: list[dict]):
     model = {"items": items, "fields": list(doc.get("fields", [])), "state": {}, "rule_applied": set(),
              "field_applied": {}}
     ls = doc.get("logsource", {})
-    for p in pre:
-        if p["type"] == "set_state":
-            cond = p.get("rule_conditions", [])
-            if all(all(c.get(k) is None or c.get(k) == ls.get(k) for k in ("category", "product", "service")) for c in cond):
-                model["state"][p["key"]] = p["val"]
+
+    def run(pre_items):
+        for p in pre_items:
+            if p["type"] == "nest":  # a nested pipeline: its items in order; state, applied ids and field tracking are merged back
                 model["rule_applied"].add(p["id"])
-        elif p["type"] == "field_name_prefix":
-            model["rule_applied"].add(p["id"])
-            targets = p["field_name_conditions"][0]["fields"]
-            for it in items:
-                changed = False
-                if it["field"] in targets and p["prefix"]:
-                    model["field_applied"].setdefault(p["prefix"] + it["field"], set()).add(p["id"])
-                    it["field"] = p["prefix"] + it["field"]
-                    changed = True
-                newvals = []
-                for v in it["values"]:
-                    if v[0] == "ref" and v[1] in targets and p["prefix"]:
-                        model["field_applied"].setdefault(p["prefix"] + v[1], set()).add(p["id"])
-                        newvals.append(("ref", p["prefix"] + v[1]))
+                run(p["items"])
+                continue
+            if p["type"] == "set_state":
+                cond = p.get("rule_conditions", [])
+                if all(all(c.get(k) is None or c.get(k) == ls.get(k) for k in ("category", "product", "service")) for c in cond):
+                    model["state"][p["key"]] = p["val"]
+                    model["rule_applied"].add(p["id"])
+            elif p["type"] == "field_name_prefix":
+                model["rule_applied"].add(p["id"])
+                targets = p["field_name_conditions"][0]["fields"]
+                for it in items:
+                    changed = False
+                    if it["field"] in targets and p["prefix"]:
+                        model["field_applied"].setdefault(p["prefix"] + it["field"], set()).add(p["id"])
+                        it["field"] = p["prefix"] + it["field"]
                         changed = True
+                    newvals = []
+                    for v in it["values"]:
+                        if v[0] == "ref" and v[1] in targets and p["prefix"]:
+                            model["field_applied"].setdefault(p["prefix"] + v[1], set()).add(p["id"])
+                            newvals.append(("ref", p["prefix"] + v[1]))
+                            changed = True
+                        else:
+                            newvals.append(v)
+                    it["values"] = newvals
+                    if changed:
+                        it["applied"].add(p["id"])
+                nf = []
+                for f in model["fields"]:
+                    if f in targets and p["prefix"]:
+                        model["field_applied"].setdefault(p["prefix"] + f, set()).add(p["id"])
+                        nf.append(p["prefix"] + f)
                     else:
-                        newvals.append(v)
-                it["values"] = newvals
-                if changed:
-                    it["applied"].add(p["id"])
-            nf = []
-            for f in model["fields"]:
-                if f in targets and p["prefix"]:
-                    model["field_applied"].setdefault(p["prefix"] + f, set()).add(p["id"])
-                    nf.append(p["prefix"] + f)
-                else:
-                    nf.append(f)
-            model["fields"] = nf
+                        nf.append(f)
+                model["fields"] = nf
+
+    run(pre)
     return model
 
 
@@ -330,8 +339,7 @@ def check_case(case: dict) -> Outcome:
             out.label("expression")
     for t in set(ctypes):
         out.label("c:" + t)
-    try:
-        model = build_model(doc, pre)
+    def expect(model):
         R = ev_group(test.get("rule"), lambda c: ev_rule(c, doc, model))
         exp_items, exp_refs = {}, {}
         for it in model["items"]:
@@ -339,11 +347,25 @@ def check_case(case: dict) -> Outcome:
             exp_items[it["pos"]] = it["field"] is not None and R and D and ev_group(test.get("fn"), lambda c, it=it: ev_fn(c, it["field"], model))
             exp_refs[it["pos"]] = [R and D and ev_group(test.get("fn"), lambda c, v=v: ev_fn(c, v[1], model)) for v in it["values"] if v[0] == "ref"]
         exp_fields = [R and ev_group(test.get("fn"), lambda c, f=f: ev_fn(c, f, model)) for f in model["fields"]]
+        return exp_items, exp_refs, exp_fields
+
+    try:
+        model = build_model(doc, pre)
+        exp_items, exp_refs, exp_fields = expect(model)
+        alt = None
+        if case.get("test_nested"):
+            # alternative model for the recorded finding: an item inside a nested pipeline evaluates state and
+            # field-name tracking conditions against the nested pipeline's own (empty) state and tracking
+            alt = expect(dict(model, state={}, field_applied={}))
     except (ValueError, rc.RefConditionError, rc.EmptySelector) as e:
         out.skipped = f"reference does not define the case: {e}"
         return out
     try:
-        pipeline = ProcessingPipeline.from_dict({"transformations": copy.deepcopy(pre) + [_item_yaml(test)]})
+        test_item = _item_yaml(test)
+        if case.get("test_nested"):  # the item under test sits inside a nested pipeline of its own
+            test_item = {"id": "tnest", "type": "nest", "items": [test_item]}
+            out.label("item-under-test-nested")
+        pipeline = ProcessingPipeline.from_dict({"transformations": copy.deepcopy(pre) + [test_item]})
         rule = SigmaRule.from_dict(copy.deepcopy(doc))
         pipeline.apply(rule)
     except SigmaError as e:
@@ -374,6 +396,9 @@ def check_case(case: dict) -> Outcome:
         if g is not None and not g.get("conds") and (g.get("op") == "or" or g.get("not")):
             flags.append(n)
     desc = f"item {_item_yaml(test)} pre {[p['id'] for p in pre]}"
+    if alt is not None and (obs_items, obs_refs, obs_fields) != (exp_items, exp_refs, exp_fields) and (obs_items, obs_refs, obs_fields) == alt:
+        out.fail("C13:nested-item:outer-state-and-field-tracking-invisible", f"{desc} inside a nest: targets are those of an empty pipeline state / field tracking: items {obs_items} expected {exp_items}; fields {obs_fields} expected {exp_fields}")
+        return out
     if obs_items != exp_items:
         bad = [p for p in exp_items if exp_items[p] != obs_items.get(p)]
         cls = _cls(test, doc, bad, model)
@@ -460,7 +485,7 @@ RULE_CONDS = [
     lambda d: {"type": "logsource", "category": "proc", "product": "win"},
     lambda d: {"type": "contains_field", "field": d(st.sampled_from(FIELDS + ["P_f"]))},
     lambda d: {"type": "contains_detection_item", "field": d(st.sampled_from(FIELDS + ["P_g"])), "value": d(st.sampled_from(["a", 5, "5", "b*", 7]))},
-    lambda d: {"type": "processing_item_applied", "processing_item_id": d(st.sampled_from(["ren", "st", "nope"]))},
+    lambda d: {"type": "processing_item_applied", "processing_item_id": d(st.sampled_from(["ren", "st", "nope", "st2", "nst", "nwrap"]))},
     lambda d: _state_cond(d, ["k", "k", "zz"]),
     lambda d: {"type": "is_sigma_rule"}, lambda d: {"type": "is_sigma_correlation_rule"},
     lambda d: {"type": "rule_attribute", "attribute": "level", "value": d(st.sampled_from(LEVELS)), "op": d(st.sampled_from(["eq", "ne", "gte", "gt", "lte", "lt"]))},
@@ -475,7 +500,7 @@ DI_CONDS = [
     lambda d: {"type": "match_value", "cond": d(st.sampled_from(["any", "all"])), "value": d(st.sampled_from(["a", 5, "5", 7]))},
     lambda d: {"type": "contains_wildcard", "cond": d(st.sampled_from(["any", "all"]))},
     lambda d: {"type": "is_null", "cond": d(st.sampled_from(["any", "all"]))},
-    lambda d: {"type": "processing_item_applied", "processing_item_id": d(st.sampled_from(["ren", "st", "nope"]))},
+    lambda d: {"type": "processing_item_applied", "processing_item_id": d(st.sampled_from(["ren", "st", "nope", "st2", "nst", "nwrap"]))},
     lambda d: _state_cond(d, ["k"]),
 ]
 FN_CONDS = [
@@ -483,7 +508,7 @@ FN_CONDS = [
     lambda d: {"type": "exclude_fields", "fields": d(st.lists(st.sampled_from(FIELDS + ["P_f", "zz"]), min_size=1, max_size=3, unique=True))},
     lambda d: {"type": "include_fields", "mode": "re", "fields": d(st.lists(st.sampled_from(["^P_", "o", "^[fg]$", "notes?", ".*h", "(?i)OTHER", "(?i)^H$", "(z)\\1", "(o)th", "(.)\\1"]), min_size=1, max_size=2, unique=True))},
     lambda d: {"type": "exclude_fields", "mode": "re", "fields": d(st.lists(st.sampled_from(["^P_", "o", "^[fg]$", "(?i)NOTES", "(z)\\1"]), min_size=1, max_size=2, unique=True))},
-    lambda d: {"type": "processing_item_applied", "processing_item_id": d(st.sampled_from(["ren", "nope"]))},
+    lambda d: {"type": "processing_item_applied", "processing_item_id": d(st.sampled_from(["ren", "nope", "nwrap", "st2"]))},
     lambda d: _state_cond(d, ["k"]),
 ]
 COND_NAMES = ["c1", "c2", "notc", "x-1"]
@@ -527,8 +552,12 @@ def cases(draw):
     if draw(st.booleans()):
         pre.append({"id": "ren", "type": "field_name_prefix", "prefix": "P_",
                     "field_name_conditions": [{"type": "include_fields", "fields": draw(st.sampled_from([["f"], ["f", "g"], ["g", "zz"]]))}]})
+    if pre and draw(st.integers(0, 2)) == 0:  # the same key set again, inside a nested pipeline
+        pre.append({"id": "nst", "type": "nest", "items": [{"id": "st2", "type": "set_state", "key": "k", "val": draw(st.sampled_from(["w", 1, "v", ""]))}]})
+    if draw(st.integers(0, 3)) == 0:  # preceding items wrapped into one nested pipeline
+        pre = [{"id": "nwrap", "type": "nest", "items": pre}] if pre else pre
     item = {"rule": draw(group(RULE_CONDS)), "di": draw(group(DI_CONDS)), "fn": draw(group(FN_CONDS))}
-    return {"doc": doc, "pre": pre, "item": item}
+    return {"doc": doc, "pre": pre, "item": item, "test_nested": draw(st.integers(0, 4)) == 0}
 
 
 LOGSOURCES = [{"category": "proc", "product": "win"}, {"category": "net", "product": "win"}, {"product": "linux", "service": "auditd"},
